@@ -79,6 +79,10 @@ add("C18", "E2-worlds", "exploration",
     "For every model of the family (plus hand-written models mixing conditioned and unconditioned restrictions) every tuple over an extended vocabulary (unknown types/relations, wildcards and usersets in every position, self-referencing usersets, every condition x context shape incl. oversized) is submitted to Server.Write on an empty store and as a contextual tuple of a Check; accepted <=> an independent transcription of the property's rule; a rejected write leaves Read/ReadChanges empty.",
     "Bound: 738+4 models in quick, 12 objects x 8 relations x 41 users x condition/context variants (full block only for new restriction profiles in quick). Trusted: h/c18/oracle.go.",
     "bounded exhaustive enumeration of inputs on the implementation against an independent validity rule")
+add("C19", "E5-finite", "exploration",
+    "Every RPC of OpenFGAService and AuthZenService (found by reflection) is called with its valid baseline request in which ONE field (every string/number/enum/bool/list/map/map-key/message/Struct/Userset/ConditionParamType field found by a protoreflect walk) is replaced by EVERY member of a hostile alphabet (two fields at once on Check/Write/ListUsers/WriteAuthorizationModel in thorough); plus 29 hostile-model scenarios (deep/wide/exponential rewrites, cyclic definitions, deep condition types) through the API and as already-stored models x 14 follow-up RPCs, hostile stored tuples x 12 RPCs, cyclic data and 5k fan-outs x 10 RPCs on three engine configurations. Requests take a protobuf wire round trip and the generated Validate, then the real gRPC handlers behind cmd/run's interceptor chain, in worker processes under ulimit -v. Oracle: the worker survives, answers within 20x the 2 s deadline (and did burn CPU on the case), RSS stays bounded, and no panic reaches the recovery interceptor; a verdict needs a 3/3 reproduction alone in fresh workers.",
+    "Bound: 27k cases in quick, 314k in thorough; the alphabet is listed in the evidence file. Latency is decided only as 'no answer within 20x the deadline with CPU burnt' (a wall-clock verdict needs an otherwise idle machine; slower answers are counted, not judged). ListUsers/SubjectSearch deadline overruns on dense group digraphs are observed but excluded (answers arrive between 1x and 25x the deadline depending on scheduling).",
+    "bounded exhaustive enumeration of single-field (thorough: double-field) replacements and hostile-model scenarios on the implementation; survival/deadline/RSS oracle")
 add("C24", "E5-finite", "exploration",
     "Per key function (sub-problem, batch de-dup, Read/ReadUsersetTuples/ReadStartingWithUser iterator keys, edge key, plain string keys) 15-35k inputs built from separator- and tag-laden component alphabets are keyed and ALL pairs are decided by grouping: equal keys must share one answer-relevant class and one class (equal up to map/list/tuple order) must have one key.",
     "Bound: |S| 15k-35k per function (up to 1.2M in thorough). Type names are restricted to strings model validation admits; nil and empty ObjectIDs are one class (pinned by the repository's own key test). 64-bit digests: equal digests are treated as equal encodings. keys.Seed pinned.",
@@ -136,7 +140,7 @@ add("C15", "E3-history-bfs", "model_checking",
 
 add("C09", "E3-history-bfs", "fault_enumeration",
     "For every world and request pair <q1,q2>: q1 runs with the iterator caches and shared iterators on while the request context is cancelled at the k-th datastore operation (read call or iterator Next/Head) for EVERY k, and again with a non-cancellation error injected at every k; background drains are awaited; then every q2 runs undisturbed and must answer like the reference or the cache-less server: a partially read result is never served as complete.",
-    "Bound: every 30th r0-signature class without conditions in quick (every 3rd in thorough), <=2 tuples, Check on every node + two ListObjects as q1 and q2, default and weighted-graph/pipeline engines, fresh server per world. Trusted: fault-injecting datastore wrapper (h/dsx), map-backed cache (h/cachex). Interleavings of drain vs concurrent reader: C23's scheduler harness.",
+    "Bound: every 30th r0-signature class without conditions in quick (every 3rd in thorough), <=2 tuples, Check on every node + two ListObjects as q1 and q2, default and weighted-graph/pipeline engines, fresh server per world. Trusted: fault-injecting datastore wrapper (h/dsx), map-backed cache (h/cachex). Interleavings of concurrent readers of one CachedDatastore (cachedIterator Next/Stop/flush, background drain, singleflight, findInCache/isInvalidAt) are explored by the E1 sub-harness citer (h/citer, instrumented pkg/storage/storagewrappers + x/sync/singleflight): 2-3 readers x k of n<=3 tuples consumed, with inner-iterator failure, cancellation and invalidation threads; preemption bounds 0-2 complete, unbounded where the budget allows (evidence: coverage.cached_iterator_interleavings). Shared iterators under the scheduler: C23.",
     "exhaustive fault-point enumeration (cancel / error at every datastore operation of the first request) on the real server, differential + reference oracle on the following requests")
 
 add("C20", "E2-worlds", "exploration",
